@@ -63,7 +63,7 @@ Definition scert_of (t : tok) : scert :=
   if is_word "good" t then SGood else if is_word "dnsonly" t then SDnsOnly else if is_word "wronghost" t then SWrongHost
   else if is_word "untrusted" t then SUntrusted else if is_word "expired" t then SExpired else SNone.
 Definition ccert_of (t : tok) : ccert :=
-  if is_word "client-good" t then CGood else if is_word "client-foreign" t then CForeign else CNone.
+  if is_word "client-good" t then CGood else if is_word "client-foreign" t || is_word "client-lookalike" t then CForeign else CNone.
 Definition carrier_of (t : tok) : carrier :=
   if is_word "tls-socket" t then TlsSocket else if is_word "starttls-socket" t then StartTlsSocket else if is_word "plain-socket" t then PlainSocket
   else if is_word "wss" t then Wss else if is_word "starttls-ws" t then StartTlsWs else if is_word "plain-ws" t then PlainWs
